@@ -18,10 +18,13 @@ CHECKS = {
          PYVC_NOTE + "Assumed: int.to_bytes/from_bytes, ascii encode/decode and slice clamping as axiomatised in pyvc/bytesalg.py; pickle round trip (codec_pair); comms.get_socket (opens a socket); "
          "cloudpickle/orjson/pydantic round-trip plain data (stand-in only)."),
  "C18": ("proof", "contract-based deductive verification of JobRouter (pre/post, whole-view frames, ownership class invariant with ghost owners) by pyvc + z3",
-         "JobRouter.__init__/spawn_job/maybe_update/put_result/get_result, server.handle_controller (every result a report carries is stored as uploaded, whatever else it carries) and next_uuid verified against contracts whose top clauses quote the property (newest timestamp wins, shutdown keeps progress, "
+         "JobRouter.__init__/spawn_job (also: a FAILED spawn leaves every existing job as it was)/maybe_update/put_result/get_result/progress_of (shows exactly the stored progress of exactly the jobs named, all when none; unknown job = KeyError), "
+         "server.handle_fe (every request is answered with one send and never escapes; an unknown job / dataset gets an error response; a known result is answered with base64 of exactly the stored bytes; "
+         "no job's progress, timestamp or results object changes), server.handle_controller (every result a report carries is stored as uploaded, whatever else it carries) and next_uuid verified against contracts whose top clauses quote the property (newest timestamp wins, shutdown keeps progress, "
          "results stored per job+dataset, ids fresh, other jobs untouched); class invariant (one Job per id, one results dict per Job) established and preserved. The history claim follows by induction "
          "over the per-call contract (stated); all report histories up to the bound are also run through the real handle_controller/handle_fe (bounded stand-in).",
-         PYVC_NOTE + "Assumed contracts: comms.get_context, router._spawn_subprocess (OS process start); zmq objects are opaque."),
+         PYVC_NOTE + "Assumed contracts: comms.get_context, router._spawn_subprocess (OS process start); zmq objects are opaque; client.parse_request / serialize_response (pydantic + orjson) and "
+         "base64.b64encode are uninterpreted functions (their round trip is C17's bounded part)."),
  "C05": ("exploration", "contract-based deductive verification of Executor.healthcheck (exceptional postcondition, loop invariant) + bounded failure injection through the real chain",
          "healthcheck: 'raises iff a child has an exit code / was never started' proved for every number of workers. The rest of the chain (execute_sequence, recv_loop, Bridge.recv_events, controller.run, terminate, "
          "Manager.atexit) is exercised by exhaustive failure injection with fake process handles and an in-memory network - bounded, not proof.",
